@@ -638,4 +638,160 @@ theorem k_arrayToBytes_eq (a : WArr) (bitOffset : Nat) (array : List Nat) (offse
           rw [hb, ior_natCast]
           simp
 
+/-! ### Reverse -/
+
+/-- the realignment loop of `Reverse` (`nextInt := newBits[i]; currentInt |= nextInt << (32-leftOffset); newBits[i-1] = currentInt;
+    currentInt = nextInt >> leftOffset`, then `newBits[oldBitsLen-1] = currentInt`) is the model's `shiftLoop` over the words -/
+theorem reverse_shift_loop {σ : Type} (lo : Nat) (body : Int → List Int × Int → Ctl (List Int × Int) (List Int))
+    (hb : ∀ (i : Nat) (ws : List Nat) (cur : Nat), 1 ≤ i → body (i : Int) (words ws, (cur : Int)) =
+      match ws[i]? with
+      | none => .panic oob
+      | some r =>
+        match setWord ws (i - 1) (cur ||| shl32 r (32 - lo)) with
+        | .ok ws' => .next (words ws', ((r >>> lo : Nat) : Int))
+        | .error e => .panic e)
+    (e : Int) (k : List Int → Ctl σ (List Int)) :
+    ∀ (rest out : List Nat) (x cur : Nat) (T : List Nat), e = ((out.length + rest.length : Nat) : Int) →
+      (loop body 1 rest.length ((out.length + 1 : Nat) : Int) (words (out ++ x :: rest ++ T), (cur : Int))).thenC
+          (fun st => tryC (setIdx st.1 e st.2) k) =
+        k (words (out ++ WArr.shiftLoop lo rest cur ++ T)) := by
+  intro rest
+  induction rest with
+  | nil =>
+    intro out x cur T he
+    simp only [List.length_nil, loop_zero, next_thenC, WArr.shiftLoop, Nat.add_zero] at *
+    rw [setC (out ++ x :: [] ++ T) out.length cur k he rfl]
+    simp [setWord]
+  | cons r rest ih =>
+    intro out x cur T he
+    rw [List.length_cons, loop_succ, hb (out.length + 1) _ cur (by omega)]
+    have h1 : (out ++ x :: (r :: rest) ++ T)[out.length + 1]? = some r := by simp
+    rw [h1]
+    simp only [Nat.add_sub_cancel]
+    have h2 : setWord (out ++ x :: (r :: rest) ++ T) out.length (cur ||| shl32 r (32 - lo)) =
+        .ok ((out ++ [cur ||| shl32 r (32 - lo)]) ++ r :: rest ++ T) := by
+      simp [setWord]
+    rw [h2]
+    simp only []
+    have h3 : ((out.length + 1 : Nat) : Int) + 1 = (((out ++ [cur ||| shl32 r (32 - lo)]).length + 1 : Nat) : Int) := by
+      simp
+    rw [h3, ih (out ++ [cur ||| shl32 r (32 - lo)]) r (r >>> lo) T (by rw [he]; simp; omega)]
+    simp [WArr.shiftLoop]
+
+theorem setWord_length {ws ws' : List Nat} {i v : Nat} (h : setWord ws i v = .ok ws') : ws'.length = ws.length := by
+  unfold setWord at h
+  by_cases hl : i < ws.length
+  · rw [if_pos hl] at h; injection h with h; rw [← h, List.length_set]
+  · rw [if_neg hl] at h; cases h
+
+/-- a loop of `setWord`s keeps the length of the slice -/
+theorem foldlM_setWord_length {α : Type} (f : List Nat → α → Res (List Nat))
+    (hf : ∀ ws a ws', f ws a = .ok ws' → ws'.length = ws.length) :
+    ∀ (l : List α) (ws ws' : List Nat), l.foldlM f ws = .ok ws' → ws'.length = ws.length := by
+  intro l
+  induction l with
+  | nil => intro ws ws' h; simp only [List.foldlM, pure, Except.pure] at h; injection h with h; rw [h]
+  | cons a l ih =>
+    intro ws ws' h
+    simp only [List.foldlM, bind, Except.bind] at h
+    cases hfa : f ws a with
+    | error e => rw [hfa] at h; cases h
+    | ok w1 => rw [hfa] at h; rw [ih w1 ws' h, hf ws a w1 hfa]
+
+when_kernel Gzx.Gen.K16b.arrayReverse in
+/-- `BitArray.Reverse()` = `WArr.reverse` on an array with enough words (`size ≤ 32*len(bits)`, part of the invariant): a new slice,
+    `newBits[len-i] = Reverse32(bits[i])` for the words that hold bits, and — when `size` is not a multiple of 32 — the
+    realignment by `leftOffset = oldBitsLen*32 - size` bits -/
+theorem k_arrayReverse_eq (a : WArr) (hcap : a.size ≤ a.words.length * 32) :
+    Gen.K16b.arrayReverse (words a.words) a.size = expA (WArr.reverse a) := by
+  simp only [Gen.K16b.arrayReverse, WArr.reverse, expA]
+  by_cases h0 : a.size = 0
+  · resolve_ifs; rfl
+  resolve_ifs
+  have hlen : Int.tdiv ((a.size : Int) - 1) 32 = (((a.size - 1) / 32 : Nat) : Int) := by gonorm; omega
+  rw [mk_words _ a.words.length (len_words _), hlen]
+  simp only [tryR_ok]
+  generalize hF : (fun (nb : List Nat) (i : Nat) => do
+        let w ← wordAt a.words i
+        setWord nb ((a.size - 1) / 32 - i) (rev32 w)) = F
+  rw [List.range_eq_range', loop_up_fold' words F 0 ((a.size - 1) / 32 + 1) (List.replicate a.words.length 0) rfl
+        (by rw [tripUp_one]; omega) (by omega), ofRes_thenR]
+  · cases hf : (List.range' 0 ((a.size - 1) / 32 + 1)).foldlM F (List.replicate a.words.length 0) with
+    | error e => rfl
+    | ok nb1 =>
+      have hl1 : nb1.length = a.words.length := by
+        have := foldlM_setWord_length F (fun ws i ws' h => by
+          subst hF
+          simp only [bind, Except.bind] at h
+          cases hw : wordAt a.words i with
+          | error e => rw [hw] at h; cases h
+          | ok w => rw [hw] at h; exact setWord_length h) _ _ _ hf
+        rw [this, List.length_replicate]
+      simp only [Except.map]
+      by_cases hs : a.size = ((a.size - 1) / 32 + 1) * 32
+      · resolve_ifs
+        rfl
+      · resolve_ifs
+        have hlo : wrap 64 (((((a.size - 1) / 32 : Nat) : Int) + 1) * 32 - (a.size : Int)) =
+            ((((a.size - 1) / 32 + 1) * 32 - a.size : Nat) : Int) := by gonorm; omega
+        rw [hlo]
+        have hn : (a.size - 1) / 32 + 1 ≤ nb1.length := by omega
+        obtain ⟨w0, rest, T, hnb, hrl⟩ : ∃ w0 rest T, nb1 = w0 :: rest ++ T ∧ rest.length = (a.size - 1) / 32 ∧ True := by
+          cases nb1 with
+          | nil => simp at hn
+          | cons w0 tl =>
+            refine ⟨w0, tl.take ((a.size - 1) / 32), tl.drop ((a.size - 1) / 32), by simp, ?_, trivial⟩
+            simp only [List.length_cons] at hn
+            rw [List.length_take]; omega
+        obtain ⟨hrl, _⟩ := hrl
+        subst hnb
+        rw [idxC (w0 :: rest ++ T) 0 _ (by omega)]
+        simp only [wordAt, List.cons_append, List.getElem?_cons_zero, ishr_natCast]
+        have key := reverse_shift_loop (((a.size - 1) / 32 + 1) * 32 - a.size)
+          (Gen.K16b.arrayReverse_body2 (((((a.size - 1) / 32 + 1) * 32 - a.size : Nat)) : Int)) ?_
+          ((((a.size - 1) / 32 : Nat) : Int) + 1 - 1) (fun t7 => (Ctl.next t7 : Ctl (List Int) (List Int))) rest [] w0
+          (w0 >>> (((a.size - 1) / 32 + 1) * 32 - a.size)) T (by simp; omega)
+        · simp only [List.nil_append, List.length_nil, Nat.zero_add] at key
+          rw [show ((1 : Nat) : Int) = 1 from rfl] at key
+          rw [show tripUp 1 ((((a.size - 1) / 32 : Nat) : Int) + 1) 1 = rest.length by rw [tripUp_one]; omega]
+          rw [show (w0 :: (rest ++ T)) = (w0 :: rest ++ T) from rfl, key]
+          simp only [next_thenR]
+          have ht : (w0 :: rest ++ T).take ((a.size - 1) / 32 + 1) = w0 :: rest := by
+            simp [List.take_append, hrl]
+          have hd : (w0 :: rest ++ T).drop ((a.size - 1) / 32 + 1) = T := by
+            simp [List.drop_append, hrl]
+          rw [ht, hd]
+        · intro i ws cur hi
+          simp only [Gen.K16b.arrayReverse_body2]
+          rw [idxC ws i _ rfl]
+          unfold wordAt
+          cases ws[i]? with
+          | none => rfl
+          | some r =>
+            simp only []
+            have hsh : ior (cur : Int) (wrap 32 (ishl (r : Int) (wrap 64 (32 -
+                ((((a.size - 1) / 32 + 1) * 32 - a.size : Nat) : Int))))) =
+                ((cur ||| shl32 r (32 - (((a.size - 1) / 32 + 1) * 32 - a.size)) : Nat) : Int) := by
+              rw [show wrap 64 (32 - ((((a.size - 1) / 32 + 1) * 32 - a.size : Nat) : Int)) =
+                  ((32 - (((a.size - 1) / 32 + 1) * 32 - a.size) : Nat) : Int) by gonorm; omega,
+                ishl_natCast, wrap_natCast, ior_natCast]
+              rfl
+            rw [hsh, setC ws (i - 1) _ _ (by omega) rfl, ishr_natCast]
+            cases setWord ws (i - 1) _ <;> rfl
+  · subst hF
+    intro i _ hi nb
+    simp only [Gen.K16b.arrayReverse_body1]
+    rw [idxC a.words i _ rfl]
+    simp only [bind, Except.bind]
+    cases wordAt a.words i with
+    | error e => rfl
+    | ok w =>
+      simp only []
+      rw [setC nb ((a.size - 1) / 32 - i) (rev32 w) _ (by omega) (rev32_natCast w)]
+      cases setWord nb _ _ <;> rfl
+
+/-- non-vacuity of `k_arrayReverse_eq`: 40 bits in two words -/
+example : ∃ a : WArr, a.size ≤ a.words.length * 32 ∧ a.size % 32 ≠ 0 ∧ (WArr.reverse a).isOk :=
+  ⟨⟨[5, 128], 40⟩, by decide, by decide, by decide⟩
+
 end Gzx.Obligations.K16bArr
